@@ -72,7 +72,7 @@ def autophase_oracle(tier, seed):
     """model-independent check of the autophase clauses on the real code"""
     rng = random.Random(seed * 7919 + 113)
     fails, n_eval = [], 0
-    cases = [([128], 0), ([96, 2], 0), ([3, 96], 1)] + ([([2, 80, 2], 1)] if tier == "thorough" else [])
+    cases = [([128], 0), ([96, 2], 0), ([3, 96], 1), ([2, 64, 3], 1)] + ([([2, 80, 2], 1)] if tier == "thorough" else [])
     for shape, k in cases:
         dims = ["f2" if i == k else "d%d" % i for i in range(len(shape))]
         x, vals = lorentz_data(rng, shape, k, [25.0, -40.0, 70.0, 10.0])
@@ -107,6 +107,31 @@ def autophase_oracle(tier, seed):
                 if not np.allclose(rr.values, want.values, rtol=1e-6, atol=1e-8):
                     fails.append({"key": "C13:autophase-reference-slice", "clause": "C13:autophase-reference-slice",
                                   "ops": [{"shape": shape, "dim_pos": k, "ref": ref_idx, "deriv": deriv}]})
+                    break
+        if len(shape) == 3:
+            # a reference slice that names BOTH other dimensions (in either order of the pairs): every trace receives the
+            # correction found for exactly that one trace
+            o1, o2 = [dm for dm in dims if dm != "f2"]
+            e1, e2 = [s_ for i, s_ in enumerate(shape) if i != k]
+            done = False
+            for i1 in range(e1):
+                for i2 in range(e2):
+                    for ref in ((o1, i1, o2, i2), (o2, i2, o1, i1)):
+                        with warnings.catch_warnings():
+                            warnings.simplefilter("ignore")
+                            rr = dnp.autophase(d, dim="f2", reference_slice=ref)
+                            single = dnp.autophase(d[o1, i1, o2, i2], dim="f2")
+                        n_eval += 1
+                        t0, t1 = single.proc_attrs[-1][1]["phasetuples"][0]
+                        want = dnp.phase(d, "f2", t0, t1)
+                        if not np.allclose(rr.values, want.values, rtol=1e-6, atol=1e-8):
+                            fails.append({"key": "C13:autophase-reference-slice", "clause": "C13:autophase-reference-slice",
+                                          "ops": [{"shape": shape, "dim_pos": k, "ref": list(ref)}]})
+                            done = True
+                            break
+                    if done:
+                        break
+                if done:
                     break
     # strongly mis-phased short spectra: the minimiser may end with a first-order angle beyond +-360 degrees; whatever it
     # records must reproduce its own output when replayed through phase()
